@@ -59,7 +59,14 @@ type c15Source struct {
 // (that effect is measured on purpose by c15CleanupInterference, not by accident everywhere else).
 func c15Close(v *Validator) {
 	if chk := v.V.VerifCRLChecker(); chk != nil {
-		chk.VerifUpdateCRLs(true)
+		// bounded: a code change that makes every refresh fail slowly lets thousands of tick goroutines queue up behind
+		// the (unfair) refresh mutex, and this call would wait behind them for hours
+		done := make(chan struct{})
+		go func() { defer close(done); defer func() { recover() }(); chk.VerifUpdateCRLs(true) }()
+		select {
+		case <-done:
+		case <-time.After(20 * time.Second):
+		}
 	}
 	v.Close()
 }
